@@ -15,7 +15,15 @@ use proptest::test_runner::{Config, RngSeed, TestCaseError, TestError, TestRunne
 use serde::{de::DeserializeOwned, Deserialize, Serialize};
 use serde_json::{json, Value};
 
-pub const VERIF_DIR: &str = "/verif";
+/// root of the verification tree (known findings, regressions, evidence, replays, fuzz crate): /verif, or
+/// $VERIF_DIR when a snapshot of it is run elsewhere (`vp run`)
+pub fn verif_dir() -> PathBuf {
+    std::env::var("VERIF_DIR").map(PathBuf::from).unwrap_or_else(|_| PathBuf::from("/verif"))
+}
+/// scratch and build directory: <verif_dir>/target, or $VERIF_TARGET
+pub fn target_dir() -> PathBuf {
+    std::env::var("VERIF_TARGET").map(PathBuf::from).unwrap_or_else(|_| verif_dir().join("target"))
+}
 pub const REPO_DIR: &str = "/repo";
 pub const NTHREADS: usize = 16;
 /// wall-clock budget for shrinking one failure
@@ -335,7 +343,7 @@ pub struct KnownFinding {
 }
 
 fn load_known(property: &str) -> Vec<KnownFinding> {
-    let p = Path::new(VERIF_DIR).join("known_findings.json");
+    let p = verif_dir().join("known_findings.json");
     let txt = std::fs::read_to_string(p).unwrap_or_else(|_| "[]".into());
     let all: Vec<KnownFinding> = serde_json::from_str(&txt).unwrap_or_default();
     all.into_iter().filter(|k| k.property == property).collect()
@@ -583,7 +591,7 @@ impl Ctx {
             "tier": self.args.tier.as_str(),
             "case": case_v,
         });
-        let dir = Path::new(VERIF_DIR).join("replays").join(&self.id);
+        let dir = verif_dir().join("replays").join(&self.id);
         let _ = std::fs::create_dir_all(&dir);
         let name = format!("{:016x}.json", fnv64(format!("{}{}{}", sub, sig, doc["case"]).as_bytes()));
         let path = dir.join(name);
@@ -769,7 +777,7 @@ impl Ctx {
         if self.args.only.is_some() {
             return;
         }
-        let dir = Path::new(VERIF_DIR).join("regressions").join(&self.id);
+        let dir = verif_dir().join("regressions").join(&self.id);
         let mut files: Vec<PathBuf> = std::fs::read_dir(&dir)
             .map(|rd| rd.flatten().map(|e| e.path()).filter(|p| p.extension().map_or(false, |x| x == "json")).collect())
             .unwrap_or_default();
@@ -830,8 +838,14 @@ impl Ctx {
             "wall_s": wall,
             "violations": i.violations.len(),
         });
+        if self.args.only.is_some() && self.args.replay.is_none() {
+            // partial runs (--only) leave their evidence outside the committed directory
+            let dir = target_dir().join("partial-evidence");
+            let _ = std::fs::create_dir_all(&dir);
+            let _ = std::fs::write(dir.join(format!("{}.json", self.id)), serde_json::to_string_pretty(&ev).unwrap());
+        }
         if self.args.only.is_none() && self.args.replay.is_none() {
-            let dir = Path::new(VERIF_DIR).join("evidence");
+            let dir = verif_dir().join("evidence");
             let _ = std::fs::create_dir_all(&dir);
             let _ = std::fs::write(
                 dir.join(format!("{}.json", self.id)),
